@@ -49,9 +49,16 @@ func refParse(h http.Header) refDirectives {
 					continue
 				}
 				n, err := strconv.ParseInt(val, 10, 64)
+				if err != nil && val != "" && strings.Trim(val, "0123456789") == "" {
+					// all digits, only too many of them: a positive max-age all the same
+					n, err = 1<<31, nil
+				}
 				if err != nil || n < 0 {
 					d.Ambiguous = true
 					continue
+				}
+				if n > 1<<31 {
+					n = 1 << 31 // far beyond any run; keeps the arithmetic on lifetimes in range
 				}
 				if d.MaxAge < 0 {
 					d.MaxAge = n
